@@ -34,7 +34,7 @@ type Gen struct {
 	MaxRows int
 	MaxCols int
 	// constraints keyed by known findings (lane A); false = unconstrained
-	HFOncePerKind     bool // never set the same header/footer kind twice
+	HFOncePerKind     bool // (inactive since the finding hf-duplicate-reference was fixed)
 	hfUsed            map[string]bool
 	RectTablesOnly    bool // no column/row structural edits after a merge
 	merged            map[int]bool
@@ -439,12 +439,9 @@ func (g *Gen) opHF() (sim.Op, bool) {
 	if which[0] == 'f' && which != "fhdr" {
 		side = "f"
 	}
-	if g.HFOncePerKind {
-		if g.hfUsed[side+kind] {
-			return sim.Op{}, false
-		}
-		g.hfUsed[side+kind] = true
-	}
+	// HFOncePerKind was the lane-A constraint of the finding hf-duplicate-reference; that finding
+	// is fixed (KNOWN_FINDINGS.txt), so the constraint is off: kinds are set repeatedly everywhere.
+	_ = side
 	op := sim.Op{K: which, S: []sim.Str{g.str(kind), g.str(g.Text())}}
 	switch which {
 	case "hdrpn", "ftrpn":
